@@ -134,24 +134,85 @@ Proof. intros H. unfold stringify_value. cbn [stringify_value_acc]. rewrite H. u
 Lemma stringify_payload env pos T st : stringify_value env (text_tokens pos T) st = Ok (payload_value T, st).
 Proof. apply stringify_text. Qed.
 
+(* the tokens of an unquoted value are glued back to the written text, parentheses included *)
+Definition cat (acc : option str) (s : str) : option str :=
+  match s with [] => acc | _ => Some (match acc with Some a => a ++ s | None => s end) end.
+
+Lemma cat_app acc a b : cat (cat acc a) b = cat acc (a ++ b).
+Proof.
+  destruct a as [|x a]; [reflexivity|]. destruct b as [|y b]; [cbn [cat app]; rewrite app_nil_r; reflexivity|].
+  cbn [cat app]. destruct acc as [s|]; [|reflexivity]. rewrite <- app_assoc. reflexivity.
+Qed.
+
+Lemma stringify_acc_step env t r acc st s :
+  (forall i n, tk t <> TField n (Some i)) -> stringify env t st = Ok (s, st) -> s <> [] ->
+  stringify_value_acc env (t :: r) acc st = stringify_value_acc env r (cat acc s) st.
+Proof.
+  intros Hnf Hs Hne. cbn [stringify_value_acc]. rewrite Hs.
+  destruct s as [|x s']; [congruence|]. cbn [cat].
+  destruct (tk t) as [| | | | | | | |nm [i|]]; try reflexivity. exfalso. exact (Hnf i nm eq_refl).
+Qed.
+
+Lemma stringify_uq env : forall n v, length v <= n -> forallb usafe v = true ->
+  forall pos acc st,
+  stringify_value_acc env (uq_toks n pos v) acc st = stringify_value_acc env [] (cat acc v) st.
+Proof.
+  induction n as [|n IH]; intros v Hlen Hsafe pos acc st.
+  - destruct v; [reflexivity|cbn [length] in Hlen; lia].
+  - destruct v as [|c r]; [reflexivity|].
+    cbn [length] in Hlen. pose proof Hsafe as Hsafe0.
+    cbn [forallb] in Hsafe. apply andb_true_iff in Hsafe. destruct Hsafe as [Hc Hr].
+    cbn [uq_toks].
+    destruct (c =? c_lparen)%N eqn:E1.
+    { apply N.eqb_eq in E1. subst c.
+      rewrite (stringify_acc_step env _ _ acc st [c_lparen]); [|intros; discriminate|reflexivity|discriminate].
+      rewrite (IH r ltac:(lia) Hr). rewrite cat_app. reflexivity. }
+    destruct (c =? c_rparen)%N eqn:E2.
+    { apply N.eqb_eq in E2. subst c.
+      rewrite (stringify_acc_step env _ _ acc st [c_rparen]); [|intros; discriminate|reflexivity|discriminate].
+      rewrite (IH r ltac:(lia) Hr). rewrite cat_app. reflexivity. }
+    assert (Hca : asafe c = true).
+    { unfold usafe, is_paren in Hc. rewrite E1, E2 in Hc. cbn [orb] in Hc. rewrite orb_false_r in Hc. exact Hc. }
+    set (v := c :: r) in *.
+    set (k := span asafe v).
+    set (w := firstn k v). set (v' := skipn k v).
+    assert (HT : w ++ v' = v) by apply firstn_skipn.
+    assert (Hwne : w <> []).
+    { unfold w, k, v. cbn [span]. rewrite Hca. cbn [firstn]. discriminate. }
+    assert (Hv'safe : forallb usafe v' = true) by (apply forallb_skipn; exact Hsafe0).
+    assert (Hlen' : length v' <= n).
+    { assert (length v = length w + length v') by (rewrite <- HT, app_length; reflexivity).
+      destruct w; [congruence|]. cbn [length] in *. unfold v in H. cbn [length] in H. lia. }
+    clearbody w v' k.
+    rewrite (stringify_acc_step env _ _ acc st w); [|intros; discriminate|reflexivity|exact Hwne].
+    rewrite (IH v' Hlen' Hv'safe). rewrite cat_app, HT. reflexivity.
+Qed.
+
+Lemma stringify_value_uq env v pos st :
+  uq_ok v -> stringify_value env (uq_toks (length v) pos v) st = Ok ([VStr v], st).
+Proof.
+  intros [Hne [Hsafe _]]. unfold stringify_value. rewrite (stringify_uq env (length v) v (le_n _) Hsafe).
+  destruct v; [congruence|]. reflexivity.
+Qed.
+
 (* a written attribute converts to its mention; the converter state is left alone *)
 Lemma convert_attribute_wat env pos a st :
-  sattr_ok a -> convert_attribute env (wparsed (wat pos a)) st = Ok (attr_mention a, st).
+  sattr_ok a -> convert_attribute env (attr_tattr pos a) st = Ok (attr_mention a, st).
 Proof.
   intros Hok. rewrite convert_attribute_unfold.
-  assert (Hname : ta_name (wparsed (wat pos a)) = Some [aname_tok pos a])
-    by (unfold wat; destruct (sa_value a); reflexivity).
-  assert (Hexp : ta_expression (wparsed (wat pos a)) = false)
-    by (unfold wat; destruct (sa_value a); reflexivity).
-  assert (Hmul : ta_multiple (wparsed (wat pos a)) = false)
-    by (unfold wat; destruct (sa_value a); reflexivity).
-  rewrite Hname, Hexp, Hmul. cbn [nonempty].
+  unfold attr_tattr. cbn [ta_name ta_expression ta_multiple ta_value nonempty].
   rewrite (stringify_name_lit env (aname_tok pos a) (aname_text a) st eq_refl). cbn [bind].
   rewrite (name_flags_attr a Hok).
-  unfold attr_mention, wat. destruct (sa_value a) as [| |v|s q|e]; cbn [wparsed ta_value nonempty].
+  destruct Hok as [_ [_ [_ [_ Hv]]]].
+  unfold attr_mention. set (p := pos + length (aname_text a)).
+  destruct (sa_value a) as [| |v|s q|e]; cbn [nonempty sval_ok] in *.
   - reflexivity.
   - reflexivity.
-  - cbn [tk]. erewrite stringify_value_lit by reflexivity. reflexivity.
+  - pose proof Hv as [Hne [Hsafe _]].
+    destruct (uq_toks_head v (p + 1) Hne Hsafe) as [t [r [EU Hk]]].
+    rewrite EU. cbn [nonempty].
+    destruct Hk as [[w Hk]|[o Hk]]; rewrite Hk; [|destruct o]; cbv beta iota zeta; rewrite <- EU;
+      rewrite (stringify_value_uq env v (p + 1) st Hv); reflexivity.
   - cbn [tk tk1]. rewrite last_opt_snoc. cbn [is_quote_tok tk tk1]. rewrite drop_last_snoc.
     rewrite stringify_payload. reflexivity.
   - cbn [tk tk1]. rewrite last_opt_snoc. cbn [is_bracket tk tk1 bctx_eqb Bool.eqb andb]. rewrite drop_last_snoc.
@@ -186,10 +247,8 @@ Proof.
   induction l as [|a l IH]; intros pos HF; [constructor|].
   inversion HF as [|x y Ha HF']; subst. unfold set_tattrs.
   destruct l as [|b l'].
-  - cbn [lay map fst]. constructor; [intros st; apply convert_attribute_wat; exact Ha|constructor].
-  - change (lay pos (a :: b :: l')) with
-      ((wat pos a, [space_tok (pos + length (attr_text a))]) :: lay (pos + length (attr_text a) + 1) (b :: l')).
-    cbn [map fst]. constructor; [intros st; apply convert_attribute_wat; exact Ha|].
+  - cbn [lay map fst snd]. constructor; [intros st; apply convert_attribute_wat; exact Ha|constructor].
+  - rewrite lay_cons. cbn [map fst snd]. constructor; [intros st; apply convert_attribute_wat; exact Ha|].
     apply (IH (pos + length (attr_text a) + 1) HF').
 Qed.
 
